@@ -87,6 +87,7 @@ def check(run):
         viol, samples, summary = summary_of(outp)
         if summary is None or summary["histories"] != n:
             raise core.Inconclusive("history driver did not finish")
+        viol = run.confirm(binary, "TestC13Hist", {"VERIF_CONF": json.dumps(cf)}, viol, "hist_" + tag)
         for v in viol:
             run.violation(v)
         for s in samples[:1]:
